@@ -452,6 +452,11 @@ class ManifestRecursiveLoader:
         """
 
         with MultiprocessingPoolWrapper(self.max_jobs) as pool:
+            # Manifests accepted by this call, and the (ids of) entries
+            # they were checked against: a Manifest loaded in one round
+            # can be listed again by a Manifest loaded in a later one
+            accepted = set()
+            checked = set()
             # TODO: figure out how to avoid confusing uses of 'recursive'
             while True:
                 to_load = []
@@ -461,10 +466,22 @@ class ManifestRecursiveLoader:
                         if e.tag != 'MANIFEST':
                             continue
                         mpath = os.path.join(relpath, e.path)
-                        if curmpath == mpath or mpath in self.loaded_manifests:
+                        if curmpath == mpath:
+                            continue
+                        if mpath in self.loaded_manifests:
+                            if mpath in accepted and id(e) not in checked:
+                                checked.add(id(e))
+                                ret, diff = verify_path(
+                                    os.path.join(self.root_directory,
+                                                 mpath), e)
+                                if not ret:
+                                    del self.loaded_manifests[mpath]
+                                    raise ManifestMismatch(mpath, e, diff)
                             continue
                         mdir = os.path.dirname(mpath)
-                        if not verify:
+                        if verify:
+                            checked.add(id(e))
+                        else:
                             e = None
                         if path_starts_with(path, mdir):
                             to_load.append((mpath, e))
@@ -479,6 +496,8 @@ class ManifestRecursiveLoader:
                 manifests = list(pool.imap_unordered(
                     self.manifest_loader, to_load, chunksize=16))
                 self.loaded_manifests.update(manifests)
+                if verify:
+                    accepted.update(x[0] for x in to_load)
 
     def find_timestamp(self):
         """
